@@ -32,6 +32,8 @@ type chain struct {
 	ctx    sdk.Context    // root context of the deliver state at height 1 (never written to directly)
 	keeper ckeeper.Keeper // a real cert keeper over the app's own cert store key (for the With* iterators)
 	height int64
+	// route, when set, replaces the app's gRPC query router handler (signed-transaction mode: ABCI Query)
+	route func(ctx sdk.Context, req abci.RequestQuery) (abci.ResponseQuery, error)
 }
 
 func newChain() (*chain, error) {
